@@ -549,6 +549,9 @@ func (env *specEnv) evalQuant(x SQuant) Term {
 		pats = append(pats, p)
 	}
 	body := n.evalBool(x.Body)
+	if len(pats) == 0 {
+		pats = autoPatterns(vars, body.S)
+	}
 	if x.Forall {
 		return Forall(vars, pats, body)
 	}
